@@ -360,7 +360,7 @@ func (w *World) finalChecks() {
 				w.violate("C05", "final-state", "table %s ends at revision %d, the model at %d", w.tables[ti].M.Name, st.Rev, w.tables[ti].M.last().Rev)
 				return
 			}
-			if !w.checkTable(w.P.ReadProp, rtxn, w.tables[ti], st, w.P.FinalQueries, "final snapshot") {
+			if !w.checkTable(w.P.ReadProp, rtxn, w.tables[ti], st, w.finalQueries(), "final snapshot") {
 				return
 			}
 			if w.P.InitCheck && !w.checkInit(rtxn, ti, st, "final snapshot") {
@@ -368,7 +368,7 @@ func (w *World) finalChecks() {
 			}
 		}
 		for _, snp := range w.snaps {
-			if !w.recheck(snp, w.P.FinalQueries) {
+			if !w.recheck(snp, w.finalQueries()) {
 				return
 			}
 		}
@@ -382,4 +382,13 @@ func (w *World) finalChecks() {
 		}
 	})
 	s.Run()
+}
+
+// finalQueries is the number of queries of the closing battery (0 = every candidate query). Backlog runs
+// have thousands of objects and as many candidate queries, each linear in the table: they take a sample.
+func (w *World) finalQueries() int {
+	if w.bulk && (w.P.FinalQueries <= 0 || w.P.FinalQueries > 40) {
+		return 40
+	}
+	return w.P.FinalQueries
 }
